@@ -359,7 +359,7 @@ def dtext(sym):
     return deep_norm(sym, concat=True)
 
 
-def paths_for_input(paths, env, texts=None):
+def paths_for_input(paths, env, texts=None, resolver=None):
     """The paths whose decisions are consistent with the given constant inputs: every decision that can be folded to a value under
     `env` must have taken that value; decisions about anything else do not constrain."""
     from ..peval import fold_text, Unfoldable
@@ -368,7 +368,10 @@ def paths_for_input(paths, env, texts=None):
         ok = True
         for a, v in p.decisions:
             try:
-                if bool(fold_text(a.text, env, texts)) != v:
+                fv = fold_text(a.text, env, texts, resolver)
+                if isinstance(fv, tuple) and len(fv) == 2 and fv[0] == 'sym':
+                    continue        # an opaque value: does not constrain
+                if bool(fv) != v:
                     ok = False
                     break
             except Unfoldable:
